@@ -70,12 +70,14 @@ def src_hash(crate_dir):
     return h.hexdigest()
 
 
-def extract(crate_dir, crate_name, profile="dev", use_cache=True):
-    """Returns path of the facts JSON for crate_dir (lib target)."""
+def extract(crate_dir, crate_name, profile="dev", use_cache=True, out_path=None):
+    """Returns path of the facts JSON for crate_dir (lib target).  With out_path the shared cache is bypassed."""
     ensure_driver()
     os.makedirs(CACHE, exist_ok=True)
     key = tree_hash(crate_dir, (profile, crate_name))
-    out = os.path.join(CACHE, "%s-%s-%s.json" % (crate_name, profile, key[:24]))
+    out = out_path or os.path.join(CACHE, "%s-%s-%s.json" % (crate_name, profile, key[:24]))
+    if out_path:
+        use_cache = False
     if use_cache and os.path.exists(out):
         return out
     lock = open(os.path.join(CACHE, ".lock-" + key[:24]), "w")
@@ -110,6 +112,8 @@ def extract(crate_dir, crate_name, profile="dev", use_cache=True):
         finally:
             shutil.rmtree(tdir, ignore_errors=True)
             shutil.rmtree(odir, ignore_errors=True)
+        if out_path:
+            return out
         # keep the cache small
         ents = sorted((os.path.getmtime(os.path.join(CACHE, f)), f) for f in os.listdir(CACHE) if f.endswith(".json"))
         for _, f in ents[:-12]:
